@@ -54,6 +54,10 @@ func t3Body(s HarnessSpec) (func(x *gosym.Exec), error) {
 		return gosym.T3Float32Range(p), nil
 	case "intrange":
 		return gosym.T3IntRange(p, s.T3Bits, s.T3Signed, s.T3Native), nil
+	case "gentable":
+		return gosym.T3GenericTables(p), nil
+	case "gendepth":
+		return gosym.T3GenericDepth(p), nil
 	}
 	return nil, fmt.Errorf("unknown tier-3 check %q", s.T3)
 }
